@@ -187,6 +187,63 @@ func genBlock(r *Rng) (src []byte, decoded int, dictLen int) {
 		}
 		di += ml + 4
 	}
+	// directed tail: the decoders' fast paths switch at 14/15/16 literals and 4..18-byte matches, and a
+	// block may end with a match, with an empty literal run, or with a short one
+	if r.Intn(5) == 0 {
+		ll := r.Pick([]int{13, 14, 14, 14, 15, 16, 0, 1})
+		ml := r.Pick([]int{0, 1, 4, 8, 12, 13, 14, 14, 15, 16, 30}) // minus 4
+		tok := byte(ml)
+		if ml >= 15 {
+			tok = 0xF
+		}
+		if ll >= 15 {
+			tok |= 0xF0
+		} else {
+			tok |= byte(ll << 4)
+		}
+		src = append(src, tok)
+		if ll >= 15 {
+			src = appendLen(src, ll-15)
+		}
+		src = append(src, r.Bytes(ll)...)
+		di += ll
+		off := 0
+		switch r.Intn(6) {
+		case 0:
+			off = di + dictLen // first byte of the history
+		case 1:
+			off = ml + 4 // just not overlapping
+		case 2:
+			off = ml + 5
+		case 3:
+			off = r.Pick([]int{0, 1, 7, 8, 9, 16})
+		default:
+			if di+dictLen > 0 {
+				off = 1 + r.Intn(di+dictLen)
+			}
+		}
+		if off > 65535 {
+			off = 65535
+		}
+		src = append(src, byte(off), byte(off>>8))
+		if ml >= 15 {
+			src = appendLen(src, ml-15)
+		}
+		di += ml + 4
+		switch r.Intn(4) {
+		case 0: // ends with the match
+		case 1:
+			src = append(src, 0x00)
+		case 2:
+			src = append(src, 0x10, byte(r.Intn(256)))
+			di++
+		default:
+			src = append(src, 0x50)
+			src = append(src, r.Bytes(5)...)
+			di += 5
+		}
+		return src, di, dictLen
+	}
 	switch r.Intn(16) {
 	case 0:
 		if len(src) > 1 {
@@ -216,7 +273,7 @@ func genDec(w *bufio.Writer, thorough bool, r *Rng) {
 		} else {
 			src, dec, dictLen = genBlock(r)
 		}
-		dl := dec + r.Pick([]int{0, 0, 0, 0, 0, -1, -2, -3, 1, 1, 2, 5, 15, 16, 17, 31, 32, 33, 40, 48, 49, 100})
+		dl := dec + r.Pick([]int{0, 0, 0, 0, 0, -1, -2, -3, -4, -7, -12, -17, -18, 1, 1, 2, 5, 15, 16, 17, 31, 32, 33, 40, 48, 49, 100})
 		if dl < 0 {
 			dl = 0
 		}
@@ -430,7 +487,7 @@ func genDecGuard(w *bufio.Writer, thorough bool, r *Rng) {
 		} else {
 			src, dec, dictLen = genBlock(r)
 		}
-		dl := dec + r.Pick([]int{0, 0, 0, -1, -2, -3, 1, 2, 5, 15, 16, 17, 31, 32, 33, 40, 48, 49, 100})
+		dl := dec + r.Pick([]int{0, 0, 0, -1, -2, -3, -4, -7, -12, -17, -18, 1, 2, 5, 15, 16, 17, 31, 32, 33, 40, 48, 49, 100})
 		if dl < 0 {
 			dl = 0
 		}
